@@ -64,7 +64,7 @@ Definition bt_flatten {X} (m : btmap X) : list (N * X) :=
 
 (* ------------------------------------------------------------------ 3. schedules as data *)
 (* take the head of the i-th list *)
-Fixpoint take_at {A} (i : nat) (ls : list (list A)) : option (A * list (list A)) :=
+Fixpoint take_at {A} (i : nat) (ls : list (list A)) {struct ls} : option (A * list (list A)) :=
   match ls with
   | [] => None
   | l :: ls' =>
@@ -90,7 +90,7 @@ Fixpoint interleave {A} (sched : list nat) (ls : list (list A)) : list (nat * A)
       end
   end.
 (* any permutation: the schedule picks the next element to complete *)
-Fixpoint remove_at {A} (i : nat) (l : list A) : option (A * list A) :=
+Fixpoint remove_at {A} (i : nat) (l : list A) {struct l} : option (A * list A) :=
   match l with
   | [] => None
   | x :: t => match i with
@@ -106,7 +106,7 @@ Fixpoint permute {A} (sched : list nat) (l : list A) : list A :=
                    | None => permute sched' l
                    end
   end.
-Fixpoint upd_nth {A} (i : nat) (x : A) (l : list A) : list A :=
+Fixpoint upd_nth {A} (i : nat) (x : A) (l : list A) {struct l} : list A :=
   match l with
   | [] => []
   | y :: t => match i with O => x :: t | S i' => y :: upd_nth i' x t end
